@@ -1,9 +1,73 @@
-(* C11 — port lifecycle.  (theorems are added as they are proved) *)
-From Coq Require Import ZArith List Bool.
-Require Import Mido.Model.Base Mido.Model.Ports.
+(* C11 — port lifecycle: close is idempotent and releases the device once, a closed port drains and then stops, blocking calls return. *)
+From Coq Require Import ZArith List Bool Lia.
+Require Import Mido.Model.Base Mido.Model.Ports Mido.Proofs.PortsProofs.
 Import ListNotations.
 Open Scope Z_scope.
+
+(* for EVERY device script (messages, nothing, pushes, the device closing itself inside _receive) and EVERY sequence of send / receive /
+   poll / iter_pending / iteration / close / with-block / __del__, of any length: the device is released exactly when the port is
+   closed, and never more than once *)
+Theorem C11_close_once : forall fuel autoreset echo script ops,
+  let p := fst (port_run fuel (new_port autoreset echo script) ops) in
+  (p_closed p = false /\ p_closes p = 0%nat) \/ (p_closed p = true /\ p_closes p = 1%nat).
+Proof. exact close_once_new. Qed.
+Print Assumptions C11_close_once.
+Theorem C11_close_idempotent : forall p, p_closed p = true -> close p = p.
+Proof. exact close_idempotent. Qed.
+Print Assumptions C11_close_idempotent.
+(* with autoreset the reset messages reach the device once, contiguous, immediately before the release *)
+Theorem C11_autoreset : forall p, p_closed p = false -> p_autoreset p = true -> p_echo p = false ->
+  p_sent (close p) = p_sent p ++ reset_ids /\ p_closes (close p) = S (p_closes p) /\ p_closed (close p) = true.
+Proof. exact close_autoreset. Qed.
+Print Assumptions C11_autoreset.
+(* after close, send raises ValueError and leaves the port as it was *)
+Theorem C11_send_closed : forall p m, p_closed p = true -> send p m = (p, Raise ValueError).
+Proof. exact send_closed. Qed.
+Print Assumptions C11_send_closed.
+(* a closed port hands out what it had taken in, in order (receive, poll and iteration alike), then stops: poll None, iteration ends,
+   blocking receive ValueError *)
+Theorem C11_drain_receive : forall fuel b p m q, p_closed p = true -> p_queue p = m :: q ->
+  exists p', receive fuel b p = (p', Ok (Some m)) /\ p_queue p' = q /\ p_closed p' = true.
+Proof. exact closed_receive_drains. Qed.
+Print Assumptions C11_drain_receive.
+Theorem C11_drain_iteration : forall fuel q p n, p_closed p = true -> p_queue p = q -> (length q < n)%nat ->
+  exists p', iterate n fuel p = (p', Ok q) /\ p_queue p' = [] /\ p_closed p' = true.
+Proof. exact closed_iteration_drains. Qed.
+Print Assumptions C11_drain_iteration.
+Theorem C11_then_stops : forall fuel p, p_closed p = true -> p_queue p = [] ->
+  receive fuel false p = (p, Ok None) /\ receive fuel true p = (p, Raise ValueError) /\ (forall n, iterate n fuel p = (p, Ok [])) /\
+  (forall n, iter_pending (S n) fuel p = (p, Ok [])).
+Proof. exact closed_empty_stops. Qed.
+Print Assumptions C11_then_stops.
+(* iteration never ends with an exception, wherever the port is closed (before, between or inside receive calls): the only outcome
+   other than a normal end is a blocking receive that never returns because nothing arrives and nothing closes *)
+Theorem C11_iteration_ends_cleanly : forall n fuel p p' e, iterate n fuel p = (p', Raise e) -> e = Diverges.
+Proof. exact iteration_ends_cleanly. Qed.
+Print Assumptions C11_iteration_ends_cleanly.
+(* blocking receive returns the message the device delivers at its (k+1)-th _receive call after exactly k sleeps; a non-blocking
+   call never sleeps, calls _receive at most once, and always returns *)
+Theorem C11_blocking_prompt : forall k p m rest fuel, p_closed p = false -> p_queue p = [] ->
+  p_script p = repeat ANothing k ++ AMsg m :: rest -> (k < fuel)%nat ->
+  exists p', receive fuel true p = (p', Ok (Some m)) /\ p_sleeps p' = (p_sleeps p + k)%nat /\ p_calls p' = (p_calls p + S k)%nat.
+Proof. exact blocking_receive_prompt. Qed.
+Print Assumptions C11_blocking_prompt.
+Theorem C11_nonblocking : forall fuel p, exists p' r, receive (S fuel) false p = (p', r) /\ p_sleeps p' = p_sleeps p /\
+  (p_calls p' <= S (p_calls p))%nat /\ r <> Raise Diverges.
+Proof. exact nonblocking_never_waits. Qed.
+Print Assumptions C11_nonblocking.
+(* MultiPort: non-blocking receive never sleeps and always returns; a blocking receive returns without sleeping as soon as a message
+   is queued on it or deliverable on a sub-port *)
+Theorem C11_multi_nonblocking : forall fuel mp, exists mp' r, multi_receive (S fuel) false mp = (mp', r) /\ m_sleeps mp' = m_sleeps mp /\ r <> Raise Diverges.
+Proof. exact multi_nonblocking. Qed.
+Print Assumptions C11_multi_nonblocking.
+Theorem C11_multi_prompt : forall fuel mp, m_queue mp <> [] \/ snd (sweep (S fuel) (m_subs mp)) <> [] ->
+  exists mp' m, multi_receive (S fuel) true mp = (mp', Ok (Some m)) /\ m_sleeps mp' = m_sleeps mp.
+Proof. exact multi_blocking_prompt. Qed.
+Print Assumptions C11_multi_prompt.
 Example C11_nonvacuous : snd (port_run 5 (new_port false false [APush [1; 2]; AClose]) [PIterate 1000; PPoll; PClose])
   = [OList_ [1; 2]; OMsg_ None; ONone_].
 Proof. vm_compute. reflexivity. Qed.
-Print Assumptions C11_nonvacuous.
+Example C11_nonvacuous_block : (fst (port_run 5 (new_port true false [ANothing; ANothing; AMsg 7]) [PReceive true; PClose; PClose; PSend 1])) =
+  {| p_closed := true; p_queue := []; p_script := []; p_closes := 1; p_sent := reset_ids; p_autoreset := true; p_echo := false; p_sleeps := 2; p_calls := 3 |}
+  /\ snd (port_run 5 (new_port true false [ANothing; ANothing; AMsg 7]) [PReceive true; PClose; PClose; PSend 1]) = [OMsg_ (Some 7); ONone_; ONone_; OErr_ ValueError].
+Proof. vm_compute. split; reflexivity. Qed.
